@@ -110,12 +110,18 @@ def plan2 (o : Opt) (u p : String) : List Cmd := (plan2T (evalAtom o u p)).init.
 /-- number of replies whose errors are looked at: `count -= 2` when the SETINFO pair was added -/
 def checked (b : BuiltT) : Nat := if b.setInfoFlag then b.init.length - 2 else b.init.length
 
-/-- reply classes: a map/even array carrying `proto`, a string, a Redis error (does its text
-    match `unknown command .?(HELLO|hello).?`), a non-Redis error (transport, timeout) -/
-inductive Reply | map (proto : Nat) | str | rerr (noHello : Bool) | ioerr
+/-- reply classes: a map/even array carrying `proto`, a string (`strAZ`: one that contains an
+    `availability_zone:` line), a Redis error (does its text match
+    `unknown command .?(HELLO|hello).?`), a non-Redis error (transport, timeout) -/
+inductive Reply | map (proto : Nat) | str | strAZ | rerr (noHello : Bool) | ioerr
   deriving DecidableEq, Repr
 
-inductive Fail | cred | err | noCache
+def Reply.isMap : Reply → Bool
+  | .map _ => true
+  | _ => false
+
+/-- `panic`: `p.info["availability_zone"] = …` on a nil map (Go run-time panic) -/
+inductive Fail | cred | err | noCache | panic
   deriving DecidableEq, Repr
 
 /-- error seen by the RESP3 loop at index i: none | Redis error (noHello?) | other error -/
@@ -126,7 +132,7 @@ def err3 (az : Bool) (i : Nat) : Reply → E
   | .rerr nh => .redis nh
   | .ioerr => .other
   | .map _ => if i == 1 && az then .other else .none          -- ToString on a map: parse error
-  | .str => if i == 0 then .other else .none                   -- AsMap on a string: parse error
+  | _ => if i == 0 then .other else .none                      -- AsMap on a string: parse error
 
 /-- what the loops ask about `init[i][0]`: is it "READONLY", is it "CLIENT". Every command of
     the extracted plans starts with a literal word (`C47.heads_are_literals`). -/
@@ -138,46 +144,59 @@ def headOf : List Tok → Head
   | .lit .k_CLIENT :: _ => .client
   | _ => .other
 
-/-- one iteration of the RESP3 loop; `head` is `init[i][0]`. Result: continue with r2, or fail. -/
-def step3 (az : Bool) (i : Nat) (head : Head) (r2 : Bool) (rep : Reply) : Except Fail Bool :=
+/-- loop state: `r2` and whether `p.info` is still a nil map -/
+structure St3 where
+  r2 : Bool
+  infoNil : Bool
+  deriving DecidableEq, Repr
+
+/-- one iteration of the RESP3 loop; `head` is `init[i][0]`. Result: continue, or fail. -/
+def step3 (az : Bool) (i : Nat) (head : Head) (s : St3) (rep : Reply) : Except Fail St3 :=
+  -- `p.info, err = r.AsMap()` at i = 0 (nil unless the reply is a map)
+  let infoNil := if i == 0 then !rep.isMap else s.infoNil
+  -- `p.info["availability_zone"] = …` at i = 1 when the INFO text has the line
+  if i == 1 && az && rep == .strAZ && infoNil then .error .panic else
   match err3 az i rep with
-  | .none => .ok r2
+  | .none => .ok ⟨s.r2, infoNil⟩
   | e =>
-    if head == .readonly then .ok r2 else
+    if head == .readonly then .ok ⟨s.r2, infoNil⟩ else
     match e with
     | .redis nh =>
-      if !r2 && nh then .ok true
+      if !s.r2 && nh then .ok ⟨true, infoNil⟩
       else if head == .client then .error .noCache
-      else if r2 then .ok r2
+      else if s.r2 then .ok ⟨s.r2, infoNil⟩
       else .error .err
     | _ => .error .err
 
-def loop3 (az : Bool) (heads : List Head) (rs : Nat → Reply) : Nat → Bool → Except Fail Bool :=
+def loop3 (az : Bool) (heads : List Head) (rs : Nat → Reply) : Nat → St3 → Except Fail St3 :=
+  go heads
+where
+  go : List Head → Nat → St3 → Except Fail St3
+  | [], _, s => .ok s
+  | h :: hs, i, s =>
+    match step3 az i h s (rs i) with
+    | .ok s' => go hs (i + 1) s'
+    | .error f => .error f
+
+/-- one iteration of the RESP2 loop; the state is "p.info is nil" -/
+def step2 (az : Bool) (helloIdx i : Nat) (head : Head) (infoNil : Bool) (rep : Reply) : Except Fail Bool :=
+  if head == .readonly then .ok infoNil else
+  match rep with
+  | .rerr nh => if nh then .ok infoNil else .error .err
+  | .ioerr => .error .err
+  | _ =>
+    if i == helloIdx then .ok (!rep.isMap)
+    else if az && i == helloIdx + 1 then (if rep == .strAZ && infoNil then .error .panic else .ok infoNil)
+    else .ok infoNil
+
+def loop2 (az : Bool) (helloIdx : Nat) (heads : List Head) (rs : Nat → Reply) : Nat → Bool → Except Fail Bool :=
   go heads
 where
   go : List Head → Nat → Bool → Except Fail Bool
-  | [], _, r2 => .ok r2
-  | h :: hs, i, r2 =>
-    match step3 az i h r2 (rs i) with
-    | .ok r2' => go hs (i + 1) r2'
-    | .error f => .error f
-
-/-- one iteration of the RESP2 loop -/
-def step2 (head : Head) (rep : Reply) : Except Fail Unit :=
-  if head == .readonly then .ok () else
-  match rep with
-  | .rerr nh => if nh then .ok () else .error .err
-  | .ioerr => .error .err
-  | _ => .ok ()
-
-def loop2 (heads : List Head) (rs : Nat → Reply) : Nat → Except Fail Unit :=
-  go heads
-where
-  go : List Head → Nat → Except Fail Unit
-  | [], _ => .ok ()
-  | h :: hs, i =>
-    match step2 h (rs i) with
-    | .ok _ => go hs (i + 1)
+  | [], _, s => .ok s
+  | h :: hs, i, s =>
+    match step2 az helloIdx i h s (rs i) with
+    | .ok s' => go hs (i + 1) s'
     | .error f => .error f
 
 inductive Res | failed (f : Fail) | serving (resp3 : Bool)
@@ -193,12 +212,12 @@ def protoOf : Reply → Nat
   | .map n => n
   | _ => 0
 
-/-- the RESP2 sequence (`else` block), given what was already sent -/
-def fallback (o : Opt) (u p : String) (sent : List Cmd) (rs2 : Nat → Reply) : Outcome :=
+/-- the RESP2 sequence (`else` block), given what was already sent and whether p.info is nil -/
+def fallback (o : Opt) (u p : String) (sent : List Cmd) (infoNil : Bool) (rs2 : Nat → Reply) : Outcome :=
   if !o.disableCache then ⟨sent, .failed .noCache⟩ else
   let b := plan2T (evalAtom o u p)
   let cmds := plan2 o u p
-  match loop2 ((b.init.take (checked b)).map headOf) rs2 0 with
+  match loop2 o.azInfo b.helloIndex ((b.init.take (checked b)).map headOf) rs2 0 infoNil with
   | .ok _ => ⟨sent ++ cmds, .serving false⟩
   | .error f => ⟨sent ++ cmds, .failed f⟩
 
@@ -208,17 +227,86 @@ def connect (o : Opt) (r2ps : Bool) (rs3 rs2 : Nat → Reply) : Outcome :=
   match creds o with
   | none => ⟨[], .failed .cred⟩
   | some (u, p) =>
-    if o.alwaysResp2 || r2ps then fallback o u p [] rs2 else
+    if o.alwaysResp2 || r2ps then fallback o u p [] true rs2 else
     let b := plan3T (evalAtom o u p)
     let cmds := plan3 o u p
-    match loop3 o.azInfo ((b.init.take (checked b)).map headOf) rs3 0 false with
+    match loop3 o.azInfo ((b.init.take (checked b)).map headOf) rs3 0 ⟨false, true⟩ with
     | .error f => ⟨cmds, .failed f⟩
-    | .ok r2 =>
-      if r2 || protoOf (rs3 0) < 3 then fallback o u p cmds rs2
+    | .ok s =>
+      if s.r2 || protoOf (rs3 0) < 3 then fallback o u p cmds s.infoNil rs2
       else ⟨cmds, .serving true⟩
 
 /-- sentinel.go newSentinelOpt, on the modelled fields -/
 def sentinelOpt (o : Opt) (su sp sn : String) : Opt :=
   { o with username := su, password := sp, clientName := sn, selectDB := 0 }
+
+/-! ### specification: what the settings demand, in order (hand-written) -/
+
+def lits (ks : List Kw) : List Tok := ks.map .lit
+
+/-- credentials in HELLO 3: `AUTH default <password>` when only a password is configured,
+    `AUTH <username> <password>` when a user name is configured, nothing otherwise -/
+def authArgs (ev : Atom → Bool) : List Tok :=
+  if ev .passOnly then lits [.k_AUTH, .k_default] ++ [.password]
+  else if ev .hasUser then lits [.k_AUTH] ++ [.username, .password] else []
+
+def hello3Spec (ev : Atom → Bool) : List Tok :=
+  lits [.k_HELLO, .k_3] ++ authArgs ev ++ (if ev .hasName then [.lit .k_SETNAME, .clientName] else [])
+
+def opt (c : Bool) (cmd : List Tok) : List (List Tok) := if c then [cmd] else []
+
+def setInfoSpec (ev : Atom → Bool) : List (List Tok) :=
+  if ev .setInfo2 then [lits [.k_CLIENT, .k_SETINFO, .k_LIB_NAME] ++ [.setInfo0], lits [.k_CLIENT, .k_SETINFO, .k_LIB_VER] ++ [.setInfo1]]
+  else if ev .setInfoNil then [lits [.k_CLIENT, .k_SETINFO, .k_LIB_NAME] ++ [.libName], lits [.k_CLIENT, .k_SETINFO, .k_LIB_VER] ++ [.libVer]]
+  else []
+
+/-- settings shared by both protocols, in the order the property lists them -/
+def commonSpec (ev : Atom → Bool) : List (List Tok) :=
+  opt (ev .selDB) [.lit .k_SELECT, .selectDB] ++ opt (ev .readonly) [.lit .k_READONLY] ++
+  opt (ev .noTouch) (lits [.k_CLIENT, .k_NO_TOUCH, .k_ON]) ++ opt (ev .noEvict) (lits [.k_CLIENT, .k_NO_EVICT, .k_ON]) ++
+  setInfoSpec ev
+
+def trackingSpec (ev : Atom → Bool) : List (List Tok) :=
+  opt (ev .cache) (if ev .trackNil then lits [.k_CLIENT, .k_TRACKING, .k_ON, .k_OPTIN] else lits [.k_CLIENT, .k_TRACKING, .k_ON] ++ [.trackingOpts])
+
+/-- RESP3: credentials (and name) ride on HELLO, which is first; then tracking, then the rest -/
+def required3 (ev : Atom → Bool) : List (List Tok) := [hello3Spec ev] ++ trackingSpec ev ++ commonSpec ev
+
+def auth2Spec (ev : Atom → Bool) : List (List Tok) :=
+  if ev .passOnly then [[.lit .k_AUTH, .password]] else if ev .hasUser then [[.lit .k_AUTH, .username, .password]] else []
+
+/-- RESP2: AUTH first, then HELLO 2, the name, then the rest -/
+def required2 (ev : Atom → Bool) : List (List Tok) :=
+  auth2Spec ev ++ [lits [.k_HELLO, .k_2]] ++ opt (ev .hasName) (lits [.k_CLIENT, .k_SETNAME] ++ [.clientName]) ++ commonSpec ev
+
+/-! ### oracle: the property judged on an observed connection log -/
+
+def Reply.isErr : Reply → Bool
+  | .rerr _ | .ioerr => true
+  | _ => false
+
+/-- errors the property tolerates: READONLY, CLIENT SETINFO, and `HELLO 2` being unknown -/
+def tolerated (c : Cmd) (r : Reply) : Bool :=
+  c.head? == some "READONLY" || c.take 2 == ["CLIENT", "SETINFO"] || (c == ["HELLO", "2"] && r == .rerr true)
+
+/-- start of the RESP2 sequence in a connection log: the last `HELLO 2`, or the AUTH right before it -/
+def startOf2 (log : List Cmd) : Nat :=
+  match (log.zipIdx.filter fun (c, _) => c == ["HELLO", "2"]).getLast? with
+  | none => 0
+  | some (_, k) => if k > 0 && (log.getD (k - 1) []).head? == some "AUTH" then k - 1 else k
+
+/-- a connection that served a user command must have (1) the demanded setup commands, in order, in
+    its final attempt before the user command, (2) credentials (or HELLO) first, (3) no failed
+    non-tolerated step in that attempt -/
+def sessOracle (o : Opt) (u p : String) (served : Bool) (proto : Nat) (log : List Cmd) (rep : List Reply) : String :=
+  if !served then "ok" else
+  let ev := evalAtom o u p
+  let req := (if proto == 3 then required3 ev else required2 ev).map (substCmd o u p)
+  let start := if proto == 3 then 0 else startOf2 log
+  let att := log.drop start
+  if !(req.isSublist att) then "VIOLATION:missing-setup"
+  else if att.head? != req.head? then "VIOLATION:credentials-not-first"
+  else if (att.zip (rep.drop start)).any (fun (c, r) => r.isErr && !tolerated c r) then "VIOLATION:served-after-failed-step"
+  else "ok"
 
 end Rv.InitPlan
